@@ -180,14 +180,19 @@ func (q *UdpTaskQueue) convoy() {
 				continue
 			}
 
+			verifYield("convoy.after_idle_check")
+
 			// CAS refs to lock out new acquireQueue and avoid time.Sleep
 			if !q.refs.CompareAndSwap(0, -1000000) {
 				q.safeTimerReset(timer)
 				continue
 			}
 
+			verifYield("convoy.after_claim")
+
 			// Try to delete from pool using CAS-like semantics via sync.Map
 			if q.p.tryDeleteQueue(q.key, q) {
+				verifYield("convoy.before_recycle")
 				q.p.queueChPool.Put(q.ch)
 				return
 			}
@@ -226,6 +231,7 @@ func (p *UdpTaskPool) EmitTask(key UdpFlowKey, task UdpTask) {
 		return
 	}
 	q.enqueue(task)
+	verifYield("emit.after_enqueue")
 	q.refs.Add(-1)
 }
 
@@ -237,6 +243,7 @@ func (p *UdpTaskPool) acquireQueue(key UdpFlowKey) *UdpTaskQueue {
 	// Fast path: check if queue exists without any lock contention
 	if v, ok := p.queues.Load(key); ok {
 		q := v.(*UdpTaskQueue)
+		verifYield("acquire.after_load")
 		for {
 			refs := q.refs.Load()
 			if refs < 0 {
